@@ -231,11 +231,14 @@ class PVLDecoder(object):
         """
         try:
             # datetime.date objects will always be naive, so just return:
-            return for_try_except(
-                ValueError,
-                datetime.strptime,
-                repeat(value),
-                self.grammar.date_formats,
+            return self._check_year(
+                value,
+                for_try_except(
+                    ValueError,
+                    datetime.strptime,
+                    repeat(value),
+                    self.grammar.date_formats,
+                )
             ).date()
         except ValueError:
             # datetime.time and datetime.datetime might be either:
@@ -249,11 +252,14 @@ class PVLDecoder(object):
                 ).time()
             except ValueError:
                 try:
-                    d = for_try_except(
-                        ValueError,
-                        datetime.strptime,
-                        repeat(value),
-                        self.grammar.datetime_formats,
+                    d = self._check_year(
+                        value,
+                        for_try_except(
+                            ValueError,
+                            datetime.strptime,
+                            repeat(value),
+                            self.grammar.datetime_formats,
+                        )
                     )
                 except ValueError:
                     pass
@@ -270,6 +276,21 @@ class PVLDecoder(object):
             return str(value)
         else:
             raise ValueError
+
+    @staticmethod
+    def _check_year(value: str, dt: datetime) -> datetime:
+        """Returns *dt* if its year is the year written at the start
+        of *value*, raises ValueError otherwise.
+
+        datetime.strptime() accepts day-of-year 366 for any year, and
+        lets it roll over to January 1st of the next year when the
+        year written is not a leap year.
+        """
+        if not value.lstrip().startswith(f"{dt.year:04d}"):
+            raise ValueError(
+                f'The day-of-year in "{value}" is not a day of that year.'
+            )
+        return dt
 
     def is_leap_seconds(self, value: str) -> bool:
         """Returns True if *value* is a time that matches the
